@@ -47,7 +47,8 @@ REQUIRED_THEOREMS = [
     'Yaql.Props.C07.gate', 'Yaql.Props.C07.gate_candidates',
     'Yaql.Props.C07Gen.host_touch_only_yaqlized', 'Yaql.Props.C07Gen.keyword_guard',
     'Yaql.Props.C07Gen.no_format_templates', 'Yaql.Props.C07Gen.yaqlized_rows',
-    'Yaql.Props.C07Gen.exceptions_seen', 'Yaql.Props.C07Gen.gate_generated',
+    'Yaql.Props.C07Gen.yaqlized_flags_match', 'Yaql.Props.C07Gen.yaqlized_checker_probes_only',
+    'Yaql.Props.C07Gen.scan_sees_uses', 'Yaql.Props.C07Gen.gate_generated',
 ]
 TRUSTED = [
     'AST scan harness/gens/hostfacts.py (classification of parameter types by running their check on opaque '
@@ -82,6 +83,10 @@ class Canary(object):
     """a host object that was NOT yaqlized"""
     secret = SECRET + '-attr'
     _private = SECRET + '-private'
+    # not iterable: without this, iter(obj) falls back to the legacy sequence protocol and drives
+    # __getitem__(0), (1), ..; that is an implicit special-method use like __iter__ (outside the statement).
+    # With it every logged __getitem__ is an explicit subscript.
+    __iter__ = None
 
     def __init__(self, tag='c'):
         object.__setattr__(self, 'tag', tag)
@@ -113,7 +118,7 @@ class Canary(object):
 
 # ------------------------------------------------------------------ part A: the sweep
 
-ATTACK_STRINGS = ['{0.__class__}', '%(x)s', '__class__', '__dict__', '_private', 'secret', '{0.secret}']
+ATTACK_STRINGS = ['{0.secret}', '%(x)s', '__class__', '{zz.secret}{0.__class__}', '_private', 'secret', '__dict__']
 
 
 def make_yaqlized():
@@ -127,6 +132,13 @@ def make_yaqlized():
         def __getitem__(self, k):
             return 'item'
     return Y()
+
+
+def _NoFinalize(ctx):
+    """a child context whose #finalize keeps the raw result object"""
+    c = ctx.create_child_context()
+    c.register_function(lambda x: x, name='#finalize', exclusive=True)
+    return c
 
 
 class Sweep:
@@ -146,16 +158,27 @@ class Sweep:
         y = make_yaqlized()
         vals = list(ATTACK_STRINGS) + [1, 0, (1, 2), tuple(ATTACK_STRINGS[:3]), yutils.FrozenDict({'__class__': 1, 'a': 2}),
                                        True, None, y, c2, datetime.datetime(2020, 1, 2, tzinfo=datetime.timezone.utc),
-                                       datetime.timedelta(hours=1), 1.5, (), self.ctx.create_child_context()]
+                                       datetime.timedelta(hours=1), 1.5, (), self.ctx.create_child_context(),
+                                       frozenset([1, 'secret']), re.compile('(?P<secret>s)|x'), self.ordered()]
         return vals
 
+    def ordered(self):
+        """an OrderingIterable (receiver type of thenBy / thenByDescending)"""
+        ctx = self.ctx.create_child_context()
+        e = ex.BinaryOperator('.', ex.ListExpression(ex.Constant(2), ex.Constant(1)),
+                              ex.Function('orderBy', ex.GetContextValue(ex.Constant('$'))), None)
+        return ex.Statement(e, self.engine)(yutils.NO_VALUE, _NoFinalize(ctx), self.engine)
+
     def explicit(self, fd):
-        ps = [p for p in fd.parameters.values() if not isinstance(p.value_type, yaqltypes.HiddenParameterType)]
-        pos = sorted([p for p in ps if isinstance(p.position, int) and p.name not in ('*', '**')
-                      and not str(p.name).startswith('*')], key=lambda p: p.position)
-        var = [p for p in ps if p.name == '*' or (fd.parameters.get('*') is p)]
-        kwo = [p for p in ps if p.position is None and p not in var and fd.parameters.get('**') is not p]
-        kws = [p for p in ps if fd.parameters.get('**') is p]
+        """explicit (non-hidden) parameters: positional in order, the *args one, keyword-only, the **kwargs one"""
+        star, dstar = fd.parameters.get('*'), fd.parameters.get('**')
+        ps = [p for p in fd.parameters.values() if not isinstance(p.value_type, yaqltypes.HiddenParameterType)
+              and p is not star and p is not dstar]
+        pos = sorted([p for p in ps if isinstance(p.position, int)], key=lambda p: p.position)
+        kwo = [p for p in ps if p.position is None]
+        hidden = yaqltypes.HiddenParameterType
+        var = [star] if star is not None and not isinstance(star.value_type, hidden) else []
+        kws = [dstar] if dstar is not None and not isinstance(dstar.value_type, hidden) else []
         return pos, var, kwo, kws
 
     def fits(self, p, v, ctx):
@@ -164,8 +187,12 @@ class Sweep:
         except Exception:
             return False
 
-    def pick(self, p, variant, ctx, pool):
+    def pick(self, p, variant, ctx, pool, prefer_canary=False):
         cands = [v for v in pool if self.fits(p, v, ctx)]
+        if prefer_canary:
+            cs = [v for v in cands if isinstance(v, Canary)]
+            if cs:
+                return cs[0]
         if not cands:
             return pool[variant % len(ATTACK_STRINGS)]
         return cands[variant % len(cands)]
@@ -226,12 +253,14 @@ class Sweep:
         pos, var, kwo, kws = self.explicit(fd)
         slots = [('pos', p) for p in pos] + [('var', p) for p in var for _ in range(2)]
         named = [('kw', p) for p in kwo] + [('kws', p) for p in kws]
-        nvar = 2 if tier == 'quick' else 4
+        nvar = 2 if tier == 'quick' else 6
+        if any(self.fits(p, 'x', self.ctx) and not self.fits(p, 1, self.ctx) for _, p in slots + named):
+            nvar = len(ATTACK_STRINGS)      # a string parameter: every attack string gets its turn
         shapes = ['self', 'list', 'dict']
         for i in range(len(slots) + len(named)):
             for variant in range(nvar):
                 for shape in shapes:
-                    if shape != 'self' and variant > 0:
+                    if shape != 'self' and variant > (0 if tier == 'quick' else 2):
                         continue
                     for form in ('direct', 'call'):
                         yield dict(part='A', fd=fdi, fn=name, payload=self.payload(fd), slot=i, variant=variant,
@@ -256,15 +285,19 @@ class Sweep:
         target = case['slot']
         pool = self.pool()
         info = {}
+        # a function with a string parameter may use it as a template over its other arguments: make
+        # those host objects too, so that a template field hits one whatever its index
+        has_str = any(self.fits(p, 'x', self.ctx) and not self.fits(p, 1, self.ctx) for _, p in allslots)
 
         def build(ctx):
             values, exprs, kwexprs, kwvalues = [], [], [], {}
             for i, (kind, p) in enumerate(allslots):
                 is_c = (i == target)
-                v = self.wrap(case['shape']) if is_c else self.pick(p, case['variant'] + i, ctx, pool)
+                v = self.wrap(case['shape']) if is_c else self.pick(p, case['variant'] + i, ctx, pool, has_str)
                 if is_c:
                     info['param'] = str(p.name)
                     info['ptype'] = type(p.value_type).__name__
+                    info['pcls'] = self.hostfacts.type_class(p.value_type, self.ctx, self.engine)[1]
                 bykw = kind in ('kw', 'kws') or (case['bykw'] and is_c)
                 if bykw and i < target and not (kind in ('kw', 'kws')):
                     bykw = False
@@ -347,13 +380,14 @@ def k3_signature(log, case, info):
     call(name, args, kwargs) is probed for `__unwrapped__` and then called"""
     # (which overload of the name binds is yaql's choice, so the signature is the access pattern that only
     # Lambda.convert + Lambda._call produce: one `__unwrapped__` probe, then nothing but calls)
-    if case.get('form') != 'call' or case.get('shape') != 'self':
+    # (the second canary that fills the other slots can be the one in the Lambda slot)
+    if case.get('form') != 'call':
         return None
     if not log or log[0] != ('getattr', '__unwrapped__'):
         return None
-    if any(e[0] != 'call' for e in log[1:]):
+    if any(e != ('getattr', '__unwrapped__') and e[0] != 'call' for e in log):
         return None
-    return ['unwrapped-probe'] + (['callable-host-invoked-via-lambda-param'] if len(log) > 1 else [])
+    return ['unwrapped-probe'] + (['callable-host-invoked-via-lambda-param'] if any(e[0] == 'call' for e in log) else [])
 
 
 def indexer_key_signature(log, case, info):
@@ -368,10 +402,20 @@ def run_sweep(env, res, only=None):
     tier = env['tier']
     hist = dict(evaluations=0, bound=0, exceptions={}, timeouts=0, by_form={}, by_shape={}, by_ptype={},
                 functions=len(sw.fds), k3_hits=0, indexer_key_hits=0, text_forms=0)
+    if only:
+        # the registry index may have shifted: find the FunctionDefinition by name and payload
+        same = [i for i, (_, n, fd) in enumerate(sw.fds) if n == only['fn'] and sw.payload(fd) == only['payload']]
+        if same and only['fd'] not in same:
+            only = dict(only, fd=same[0])
     cases = [only] if only else itertools.chain.from_iterable(sw.cases_for(i, tier) for i in range(len(sw.fds)))
     seen_fn = set()
+    slots = {}
+    reported = set()
     for case in cases:
         log, out, exc, info = sw.run_case(case)
+        if case['shape'] == 'self':
+            k = (case['fd'], case['slot'], info.get('pcls', '?'))
+            slots[k] = slots.get(k, False) or exc not in NOT_YAQLIZED_EXC
         hist['evaluations'] += 1
         hist['by_form'][case['form']] = hist['by_form'].get(case['form'], 0) + 1
         hist['by_shape'][case['shape']] = hist['by_shape'].get(case['shape'], 0) + 1
@@ -397,12 +441,22 @@ def run_sweep(env, res, only=None):
             what = 'non-yaqlized host object reached: %s  [%s, canary as %s in parameter %r (%s) of %s]  access log %r' % (
                 info.get('expr'), case['form'], case['shape'], info.get('param'), pt, case['payload'], log[:6])
             for key in (keys or ['host-access:%s' % case['fn']]):
-                res.fail('oracle', key, what, dict(case, log=[list(e) for e in log[:6]]))
+                # one report per signature: the known findings recur in every Lambda slot and must not
+                # use up the failure list
+                if key not in reported:
+                    reported.add(key)
+                    res.fail('oracle', key, what, dict(case, log=[list(e) for e in log[:6]]))
         k3_call = bool(log) and (k3_signature(log, case, info) or [''])[-1] == 'callable-host-invoked-via-lambda-param'
-        if SECRET in out.replace(SECRET + '-call', '') or (SECRET in out and not k3_call):
+        if (SECRET in out.replace(SECRET + '-call', '') or (SECRET in out and not k3_call)) \
+                and 'secret-leak:%s' % case['fn'] not in reported:
+            reported.add('secret-leak:%s' % case['fn'])
             res.fail('oracle', 'secret-leak:%s' % case['fn'],
                      'secret of a non-yaqlized host object in the outcome of %s: %s' % (info.get('expr'), out[:200]),
                      dict(case, outcome=out[:200]))
+    for cls in ('open', 'converted', 'closed', 'yaqlized'):
+        ks = [k for k in slots if k[2] == cls]
+        hist['slots_%s' % cls] = len(ks)
+        hist['slots_%s_got_past_overload_resolution' % cls] = len([k for k in ks if slots[k]])
     if not only:
         for text in TEXT_FORMS:
             log, out, exc = sw.run_text(text)
@@ -456,7 +510,11 @@ def make_probe_class():
             return object.__getattribute__(self, name)
 
         def __getitem__(self, key):
+            # a mapping-like host object: only some keys exist (an indexer that fell back to attributes
+            # for the missing ones would show up in the log)
             PLOG.append(('getitem', key))
+            if key not in ITEM_KEYS:
+                raise KeyError(key)
             return val('item:%s' % (key,))
 
         def meth(self, *args, **kwargs):
@@ -483,6 +541,7 @@ def make_probe_class():
     return Probe
 
 
+ITEM_KEYS = {'pub', 'alias', 'hidden', 'child', '_x', 'nope', 'am', 'm_foo', '__dx__'}
 METHODS = {'meth', 'm_bar', '_m', '__dm__', 'getChild'}
 MEMBERS = {'pub', 'other', 'hidden', 'm_foo', '_x', '__dx__', 'child'} | METHODS
 NAMES = ['pub', 'other', 'hidden', 'alias', 'am', 'a1', 'meth', 'm_foo', 'm_bar', '_x', '_m', '__dx__', '__dm__',
@@ -793,6 +852,9 @@ def check_settings(s, drv, res, hist, replay_filter=None):
                 elif name.startswith('_') and (o['log'] or o['clog']):
                     what, fkey = 'underscore name %r reached the object via %s: log %r' % (name, o['text'], o['log']), \
                         'underscore-reached'
+                elif o['clog'] and not s['auto']:
+                    what, fkey = ('%s: the object returned by the member was not yaqlized (auto_yaqlize_result is off) '
+                                  'and was reached: %r' % (o['text'], o['clog'])), 'result-reached'
                 elif not allowed and (o['log'] or o['clog']):
                     what, fkey = ('%s reached the object although %s: log %r' % (
                         o['text'], 'the object is not yaqlized' if not yz else
@@ -881,12 +943,10 @@ def run_settings(env, res, only=None):
     if only:
         todo = [only['settings']]
     else:
-        nrand = 110 if env['tier'] == 'quick' else 2500
+        nrand = 110 if env['tier'] == 'quick' else 6000
         todo = systematic_settings() + [gen_settings(rng, i) for i in range(nrand)]
         todo.append(dict(attrs=True, methods=True, indexer=True, auto=False, whitelist=[], blacklist=[], remap=[],
                          byclass=False, yaqlized=False))
-        if env['tier'] == 'quick':
-            todo = todo[:8] + todo[8::1]
     for s in todo:
         before = len(res.failures)
         flt = (only['name'], only['form'], only.get('with_child', False)) if only and only.get('form') else None
@@ -974,7 +1034,7 @@ LEVEL_TEXT = ('Lean 4 theorems over an executable model of yaqlized.py / yaqliza
               'Kernel-decided theorems over tables regenerated from the live registry on every run (all 284 '
               'FunctionDefinitions, every parameter, plus every check/convert method, checker and validator of the '
               'type objects): every getattr/subscript/call/format/escape use on a parameter that admits an opaque host '
-              'object is one of four listed rows; no format templates; the keyword rule starts with (?!__). Tied to the '
+              'object is one of three listed rows (two of them the known finding K3, one the indexer-key finding); no format templates; the keyword rule starts with (?!__). Tied to the '
               'code by a canary sweep of the whole registry and by crossing yaqlization settings with every member '
               'name of a probe class on the real code and on the compiled model.')
 LEVEL_NOTE = ('partial: the soundness of the AST scan that produces the use facts (alias, guard and callee following, '
